@@ -21,5 +21,7 @@ ProgsSmall == {R("f1"), UC("f1"), UR("f1")}
 ProgsTwoFiles == {UUC("f1", "f2"), UUC("f2", "f1"), R("f1"), UC("f2")}
 ProgsCreate == {CC("f1"), CR("f1"), R("f1"), UC("f1")}
 ProgsCreate2 == {CC("f2"), CR("f2"), R("f2"), UC("f2"), UC("f1")}
+UCC(f, g) == <<[op |-> "update", f |-> f], [op |-> "create", f |-> g], [op |-> "commit", f |-> "-"]>>
+ProgsCrash == {UC("f1"), UCC("f1", "f2"), R("f1"), UR("f1")}
 None == {}
 =============================================================================
